@@ -373,7 +373,7 @@ def gen_junk(rng, run, before_start=False):
     if done:
         choices += ["dup", "dup", "fromjson"]
     if run.announced:
-        choices += ["wrongkey"]
+        choices += ["wrongkey", "pairs", "pairsjson"]
     if not before_start:
         choices += ["start_event"]  # before start() this is known finding K8 (own stream)
     j = rng.choice(choices)
@@ -381,6 +381,10 @@ def gen_junk(rng, run, before_start=False):
         return {"op": "junk", "junk": j, "n": rng.choice(done)}
     if j == "wrongkey":
         return {"op": "junk", "junk": j, "n": rng.randrange(len(run.announced))}
+    if j in ("pairs", "pairsjson"):
+        pend = sorted(run.pending)
+        n = rng.choice(pend) if pend and rng.random() < 0.8 else rng.randrange(len(run.announced))
+        return {"op": "junk", "junk": j, "n": n, "form": rng.choice(["list", "items"])}
     if j == "type":
         return {"op": "junk", "junk": "type", "t": rng.choice(["loc_started", "task_finished", "", "SERVICE_FINISHED"]),
                 "data": rng.choice([{}, {"place_uuid": "x"}, {"service_uuid": "0"}])}
